@@ -120,7 +120,7 @@ inline CaseResult run_case(const History& h, const PropSpec& ps, Stats* st, bool
     if (ps.nontrivial && ps.nontrivial(cx.features)) {
       st->nontrivial++;
       std::string txt = to_text(h);
-      if (st->distinct.insert(hash_text(txt)).second && st->samples.size() < 6 && (st->distinct.size() % 97 == 1)) st->samples.push_back(txt);
+      if (st->distinct.insert(hash_text(txt)).second && st->samples.size() < 6 && (st->distinct.size() % 97 == 1)) st->samples.push_back(txt.size() > 3000 ? txt.substr(0, 3000) + "\n... (" + std::to_string(txt.size()) + " characters)" : txt);
     }
   }
   return cr;
